@@ -26,13 +26,17 @@ THEOREMS = [
     "Pedal.Sections.c17_main_code_restored",
     "Pedal.Sections.c17_line_is_whole_file_line",
     "Pedal.Sections.c17_cumulative_prefix",
+    "Pedal.Sections.c17_lossless_nl",
+    "Pedal.Sections.c17_line_is_whole_file_line_nl",
+    "Pedal.Sections.concat_splitGoNL",
     "Pedal.Sections.lineAt_section",
     "Pedal.Sections.joinLines_splitLines",
 ]
 NOTES = [
     "the regular-expression engine is a parameter: the model receives, for every line, whether Python's re matched "
-    "it as a separator; patterns must be line-anchored with one capturing group spanning the match (the documented "
-    "default style) - texts where a match is not a whole line are skipped and counted",
+    "it as a separator; patterns must be line-anchored with one capturing group spanning the match, which is either "
+    "exactly one whole line (the documented default style) or one whole line plus its newline - both shapes are "
+    "modelled and proved; texts where some match is neither, or the shapes are mixed, are skipped and counted",
     "how each tool applies submission.line_offsets (syntax feedback, TIFA, runtime location, traceback text) is not "
     "modelled in Lean: the theorem gives the arithmetic (offset + r), the search plants diagnostics at known "
     "whole-file lines and checks every tool against it",
@@ -40,9 +44,10 @@ NOTES = [
     "separate_into_sections with defaults); the check drives separate_into_sections directly",
 ]
 FILENAME = "answer.py"
-PATTERNS = [DEFAULT_SECTION_PATTERN, DEFAULT_SECTION_PATTERN, r'^(# SECTION \d+)$', r'^(#---.*)$']
+NL_PATTERN = r'^(# ==== .+ ====\n)'          # the group also captures the separator's newline
+PATTERNS = [DEFAULT_SECTION_PATTERN, DEFAULT_SECTION_PATTERN, r'^(# SECTION \d+)$', r'^(#---.*)$', NL_PATTERN]
 MARKERS = {DEFAULT_SECTION_PATTERN: lambda k: "##### Part %d" % k, r'^(# SECTION \d+)$': lambda k: "# SECTION %d" % k,
-           r'^(#---.*)$': lambda k: "#---" + "-" * k}
+           r'^(#---.*)$': lambda k: "#---" + "-" * k, NL_PATTERN: lambda k: "# ==== part %d ====" % k}
 BODY = ["a = 1", "print(a)", "", "b = a + 1", "# c", "   ", "a = a * 2", "if a:\n    b = 3", "##### Part", "#####  Part 2 ",
         "x = '##### Part 9'", "\t", "c = [1,\n     2]",
         # characters that str.splitlines() treats as line breaks but split("\n") does not (kept inside comments /
@@ -52,22 +57,32 @@ ODD_FILLERS = ["# c\x0c", "s = 'a\u2028b'", "# \x1c\x1d", "t = 'p\u2029q'", "# d
 
 
 def marks_for(text, pattern):
-    """Per-line marker flags from Python's own regex engine; None if a match is not exactly one whole line."""
+    """Per-line marker flags from Python's own regex engine, the (start, end) span of every separator, and the
+    mode: False = each match is exactly one whole line, True = each match is one whole line plus its newline.
+    (None, None, None) if some match is neither, or the two shapes are mixed (outside the modelled precondition)."""
     lines = text.split("\n")
     starts, pos = [], 0
     for ln in lines:
         starts.append(pos)
         pos += len(ln) + 1
     marks = [False] * len(lines)
+    spans, modes = [], set()
     for m in re.finditer(pattern, text, flags=re.MULTILINE):
-        if m.start() not in starts:
-            return None, None
+        if m.start() not in starts or m.group(1) != m.group(0):
+            return None, None, None
         i = starts.index(m.start())
-        if m.end() != starts[i] + len(lines[i]) or m.group(1) != lines[i]:
-            return None, None
+        line_end = starts[i] + len(lines[i])
+        if m.end() == line_end:
+            modes.add(False)
+        elif m.end() == line_end + 1 and i + 1 < len(lines):
+            modes.add(True)
+        else:
+            return None, None, None
         marks[i] = True
-    spans = [(starts[i], starts[i] + len(lines[i])) for i, f in enumerate(marks) if f]
-    return marks, spans
+        spans.append((m.start(), m.end()))
+    if len(modes) > 1:
+        return None, None, None
+    return marks, spans, (modes.pop() if modes else False)
 
 
 def gen_file(rng):
@@ -141,9 +156,10 @@ def run_real(text, pattern, independent, ops):
     return out, sections
 
 
-def model_requests(text, marks, independent, ops):
+def model_requests(text, marks, independent, ops, takes_nl=False):
     m = "".join("1" if f else "0" for f in marks) or "-"
-    first = "S" + ("i" if independent else "c") + m
+    letter = "i" if independent else "c"
+    first = "S" + (letter.upper() if takes_nl else letter) + m
     reqs = []
     for k in range(len(ops) + 1):
         reqs.append("sections " + enc_str(text) + " " + " ".join([first] + ops[:k]))
@@ -182,24 +198,26 @@ def correspond(rng, tier, driver):
     cases, reqs, index = [], [], []
     for _ in range(n):
         text, pattern = gen_file(rng)
-        marks, spans = marks_for(text, pattern)
+        marks, spans, takes_nl = marks_for(text, pattern)
         if marks is None:
             res.count("skipped:pattern-precondition")
             continue
         independent = rng.random() < 0.5
         ops = gen_ops(rng, sum(marks))
         real, sections = run_real(text, pattern, independent, ops)
-        rq = model_requests(text, marks, independent, ops)
+        rq = model_requests(text, marks, independent, ops, takes_nl)
         cases.append({"text": text, "pattern": pattern, "independent": independent, "ops": ops, "real": real,
-                      "sections": sections, "marks": marks})
+                      "sections": sections, "marks": marks, "takes_nl": takes_nl})
         index.append((len(reqs), len(rq)))
         reqs += rq
-        reqs.append("split " + enc_str(text) + " " + ("".join("1" if f else "0" for f in marks) or "-"))
+        reqs.append("split " + enc_str(text) + " " + ("".join("1" if f else "0" for f in marks) or "-")
+                    + " " + ("1" if takes_nl else "0"))
     answers = driver.ask(reqs)
     for case, (start, cnt) in zip(cases, index):
         res.evaluations += 1
         res.count("markers=%d" % sum(case["marks"]))
         res.count("mode=" + ("independent" if case["independent"] else "cumulative"))
+        res.count("group=" + ("line+newline" if case["takes_nl"] else "line"))
         if sum(case["marks"]):
             res.nontrivial.add(json.dumps([case["text"], case["independent"], case["ops"]]))
         models = [parse_model(a) for a in answers[start:start + cnt]]
@@ -347,7 +365,7 @@ def rngless_restore(text):
 
 def check_structure(text, pattern, independent, extra_next):
     """Lossless split, section k = k-th chunk (or prefix), past-the-end feedback, restoration."""
-    marks, spans = marks_for(text, pattern)
+    marks, spans, _ = marks_for(text, pattern)
     if marks is None:
         return None
     clear_report()
